@@ -92,6 +92,7 @@ class Walk:
                 self.offer_legal_on_copy(legal)
         if 'C01' not in self.props and not fin:
             self.offer_rejected(legal)
+            self.fork(legal)
         if fin and 'C02' in self.props:
             self.offer_after_end()
 
@@ -147,6 +148,29 @@ class Walk:
                 pass
         if self.stats is not None:
             self.stats.cls('prefixes with rejected calls offered in between')
+
+    def fork(self, legal):
+        """A deep copy of an auction in progress is an independent auction (search code forks them): at some prefixes the
+        copy is continued with other calls - a bid in another denomination, a double, a few passes - and thrown away; the
+        original must go on as if nothing had happened (compared at the following prefixes and at the end)."""
+        k = h64([self.dealer, self.calls, 'fork'])
+        if k % 5:
+            return
+        cp = copy.deepcopy(self.bp)
+        cand = sorted(legal)
+        calls = list(self.calls)
+        for j in range(1 + (k >> 8) % 4):
+            lg = sorted(A.legal_calls(self.dealer, calls))
+            if A.finished(calls) or not lg:
+                break
+            c = lg[(k >> (12 + 6 * j)) % len(lg)]
+            try:
+                cp.take_bid(be.BID[c])
+            except Exception:  # noqa
+                break
+            calls.append(c)
+        if self.stats is not None:
+            self.stats.cls('prefixes where a deep copy was continued and discarded')
 
     def offer_legal_on_copy(self, legal):
         """Legal calls are offered to deep copies (the live object takes only the walk's call)."""
